@@ -54,6 +54,13 @@ type Inv struct {
 	Procs        int    `json:"procs"`
 	Reps         int    `json:"reps"`
 	IgnoreErrors bool   `json:"ignore_errors"` // binary only
+	// generated modules only. Rel: the listed packages are spelled ./dir instead of by import path.
+	// Tree k > 0: the recursive pattern TOP/... is given as well, TOP the first directory of package
+	// k-1's path; every package below TOP joins the selection (seeded change C06-10: patterns that
+	// merely share a spelling prefix with TOP were dropped as "covered")
+	Rel     bool `json:"rel,omitempty"`
+	Tree    int  `json:"tree,omitempty"`
+	TreePos int  `json:"tree_pos,omitempty"`
 }
 
 // Case is one generated case.
@@ -271,8 +278,37 @@ func runCase(c Case) string {
 		}
 		var patterns, names []string
 		anyTwo, anyCrash, anyErr := false, false, false
+		if !c.Repo {
+			for _, i := range idx {
+				if inv.Rel {
+					patterns = append(patterns, "./"+c.Mod.Pkgs[i].Dir)
+				} else {
+					patterns = append(patterns, pkgs[i].path)
+				}
+			}
+			if inv.Tree > 0 {
+				top := c.Mod.Pkgs[(inv.Tree-1)%n].Dir
+				if j := strings.Index(top, "/"); j >= 0 {
+					top = top[:j]
+				}
+				for j, p := range c.Mod.Pkgs {
+					if (p.Dir == top || strings.HasPrefix(p.Dir, top+"/")) && !seen[j] {
+						seen[j] = true
+						idx = append(idx, j)
+					}
+				}
+				tp := c.Mod.Path + "/" + top + "/..."
+				if inv.Rel {
+					tp = "./" + top + "/..."
+				}
+				at := ((inv.TreePos % (len(patterns) + 1)) + len(patterns) + 1) % (len(patterns) + 1)
+				patterns = append(patterns[:at:at], append([]string{tp}, patterns[at:]...)...)
+			}
+		}
 		for _, i := range idx {
-			patterns = append(patterns, pkgs[i].path)
+			if c.Repo {
+				patterns = append(patterns, pkgs[i].path)
+			}
 			names = append(names, pkgs[i].path)
 			o, inc := baseline(i)
 			if inc != "" {
@@ -448,7 +484,9 @@ var ffiName = map[string]string{
 var ffiLeaves = []string{gmod.MachineDisk, gmod.PrimitiveDisk, gmod.MachineAsync, gmod.PrimitiveAsync, gmod.Grove}
 var plainLeaves = []string{gmod.Machine, "sync", "fmt", "log", gmod.GokvTime}
 
-var dirPool = []string{"a", "b", "util", "core", "kv", "store", "my-pkg", "v1.2", "sub/x", "sub/y", "trusted_t", "zz/deep/er"}
+// several directories share a spelling prefix without being inside one another (a, a1/inner; kv, kv2;
+// sub/x, sub2)
+var dirPool = []string{"a", "b", "util", "core", "kv", "store", "my-pkg", "v1.2", "sub/x", "sub/y", "trusted_t", "zz/deep/er", "a1/inner", "kv2", "sub2"}
 var fileNames = []string{"a.go", "b.go", "m.go", "z.go", "x_y.go", "c.go", "k9.go"}
 
 func use(ip, name string, idx int) string {
@@ -714,6 +752,13 @@ func genInvs(t *rapid.T, n int, count int) []Inv {
 		default:
 			inv.Pkgs = ord[:gen.Range(t, "subset", 2, n)]
 		}
+		if !inv.Dots {
+			inv.Rel = gen.Chance(t, "relativePatterns", 35)
+			if len(inv.Pkgs) < n && gen.Chance(t, "treePattern", 40) {
+				inv.Tree = 1 + gen.Range(t, "treeOf", 0, n-1)
+				inv.TreePos = gen.Range(t, "treePos", 0, len(inv.Pkgs))
+			}
+		}
 		invs = append(invs, inv)
 	}
 	return invs
@@ -780,6 +825,8 @@ func classify(c Case, info *genInfo) {
 			ev.Label("selection: one package")
 		case inv.Dots:
 			ev.Label("selection: ./...")
+		case inv.Tree > 0:
+			ev.Label("selection: list with a recursive pattern DIR/...")
 		default:
 			ev.Label("selection: list of >= 2")
 		}
